@@ -59,7 +59,11 @@ def run(ctx: core.Ctx):
     ctx.count("exhaustive rank patterns", len(series))
     for _ in range(ctx.budget(150, 1500)):
         n = rng.choice([8, 10, 12, 20, 36, 60, 100, 200])
-        kind = rng.choice(["ties", "rain", "ndvi", "walk", "const-ish", "near-ties", "near-ties"])
+        kind = rng.choice(["ties", "rain", "ndvi", "walk", "const-ish", "near-ties", "near-ties", "wide", "wide"])
+        if kind == "wide":
+            x = [rng.randint(-32000, 32000) for _ in range(n)]     # pairwise differences exceed the int16 range
+            series.append(x)
+            continue
         if kind == "near-ties":
             # float32-representable values, some exactly tied, some distinct but within 1e-5 relative of each other
             base = float(np.float32(rng.choice([1200.0, 3.5, 25000.0])))
@@ -104,11 +108,14 @@ def run(ctx: core.Ctx):
                      note="tau-a, tie-corrected variance, continuity-corrected Z, two-sided normal p, Sen slope, flag = sign(Z) iff p < 0.05")
         gu_in16.setdefault(n, []).append((x, o))
     # gufunc wrappers, both dtypes, batched per length
-    for n, items in gu_in16.items():
-        if n > 12 and ctx.quick and len(items) > 50:
-            items = items[:50]
+    for n, all_items in gu_in16.items():
         for dt in ("int16", "float32"):
-            if dt == "int16" and any(isinstance(v, float) and v != int(v) for it in items for v in it[0]):
+            items = all_items
+            if dt == "int16":      # only integer-valued series can be handed to the int16 signature
+                items = [it for it in all_items if all(float(v) == int(v) for v in it[0])]
+            if n > 12 and ctx.quick and len(items) > 80:
+                items = items[:80]
+            if not items:
                 continue
             arr = np.array([it[0] for it in items], dtype=dt)
             tau, p, slope, trend = stats._mann_kendall_trend_gu(arr)
